@@ -26,11 +26,11 @@ VF_PROPERTY(kf12_xml_empty_container, 1, "witness of KF-12") {
 	}
 }
 VF_PROPERTY(kf13_xml_blank_text, 1, "witness of KF-13") {
-	Cfg cfg; c.nontrivial = true; static const char* texts[] = { "", " ", "  \t ", "a\rb", "\n", " x", "x " }; const std::string t = texts[c.src.draw(7)]; c.describe("kf13 " + vf::hex(t));
+	Cfg cfg; c.nontrivial = true; static const char* texts[] = { "", " ", "  \t ", "a\rb", "\n", "\r" }; const std::string t = texts[c.src.draw(6)]; c.describe("kf13 " + vf::hex(t));
 	// a pre-populated target makes "not loaded" visible
 	Holder<std::string> h; h.v = t; std::string bytes; if (!save<XmlArchive>(h, bytes, cfg).ok()) return;
 	Holder<std::string> l; l.v = "stale"; Outcome lo = load<XmlArchive>(l, bytes, cfg);
-	if (!lo.ok() || l.v != t) c.fail("KF-13: XML: empty / whitespace-only text is not loaded, leading-trailing blanks and CR are not preserved", vf::cat(vf::hex(t), " doc=", bytes, " => ", lo.str(), " loaded ", vf::hex(l.v)));
+	if (!lo.ok() || l.v != t) c.fail("KF-13: XML: empty / whitespace-only text is not loaded and CR is not preserved", vf::cat(vf::hex(t), " doc=", bytes, " => ", lo.str(), " loaded ", vf::hex(l.v)));
 }
 VF_PROPERTY(kf14_csv_empty_table, 1, "witness of KF-14") {
 	Cfg cfg; cfg.stream = c.src.coin(); c.nontrivial = true; c.describe(vf::cat("kf14 stream=", cfg.stream));
